@@ -186,7 +186,7 @@ def norm_outputs(r):
     return out
 
 
-def call_eager(loaded, feeds, attrs, limit=20):
+def call_eager(loaded, feeds, attrs, limit=8):
     prog = loaded.prog
     args = [feeds[name] for name, _ in prog["params"]]
     try:
@@ -293,7 +293,7 @@ class Sess:
         except Exception as e:  # noqa: BLE001
             self.err = ("load", str(e)[:400])
 
-    def run(self, feeds, limit=10.0):
+    def run(self, feeds, limit=3.0):
         if self.sess is None:
             return ("err",) + self.err
         import time
